@@ -53,6 +53,9 @@ func (w *W) loadWindows(file string) {
 func (ws *windowSpec) reset() {
 	ws.inWin = map[int]*Term{}
 	ws.hit = False
+	if ws.After == (opPattern{}) && ws.Before == (opPattern{}) && ws.Intruder == (opPattern{}) {
+		ws.hit = True // the whole obligation is the listed finding (a specific input or configuration)
+	}
 }
 
 func (ws *windowSpec) observe(w *W, t *Thread, o opSpec, exec *Term) {
